@@ -147,8 +147,8 @@ def add_blake2(reg):
         s = ST()
         reg.add(ClassContract(c, fields={'digest_size': 'int', '_update_after_digest': 'bool', '_digest_done': 'bool', 'oid?': 'str',
                                          '_state': 'obj:' + SP},
-                              valid=['1 <= self.digest_size and self.digest_size <= %d' % mx, '%s.g_p1 == self.digest_size' % s,
-                                     'len(%s.g_key) <= %d' % (s, mx)]))
+                              valid=['all((1 <= self.digest_size, self.digest_size <= %d, %s.g_p1 == self.digest_size, len(%s.g_key) <= %d))'
+                                     % (mx, s, s, mx)]))
 
         def post(o, data, key, ds, uad):
             so = ST(o)
@@ -232,7 +232,7 @@ def add_poly1305(reg):
     install_poly1305(reg)
     s = ST()
     reg.add(ClassContract(PM, fields={'_mac_tag': 'bytes|none', '_state': 'obj:' + SP, 'nonce?': 'bytes'},
-                          valid=['len(%s.g_key) == 16 and len(%s.g_key2) == 16' % (s, s),
+                          valid=['all((len(%s.g_key) == 16, len(%s.g_key2) == 16))' % (s, s),
                                  'self._mac_tag is not None ==> self._mac_tag == spec.hashprim.poly1305(%s.g_key, %s.g_key2, %s.g_data)' % (s, s, s)]))
     done = 'self._mac_tag is not None'
     fsm = lambda m: fsm_clauses('MAC.digest_final', {('update', 'digest', 'verify'): 'not (%s)' % done, ('digest', 'verify'): done}, m)
@@ -356,8 +356,8 @@ def add_hash_interface(reg):
                                       # an OID that is in HMAC's table (SHA-256) or one that is not
                                       'oid': "enum('2.16.840.1.101.3.4.2.1', '1.2.3.4')"},
                           # RFC 2104 section 2: L < B for every hash it is defined over
-                          valid=['1 <= self.digest_size and self.digest_size <= self.block_size',
-                                 'self.digest_size == spec.hashprim.md_len(self.g_alg)'], abstract=True))
+                          valid=['all((1 <= self.digest_size, self.digest_size <= self.block_size, self.digest_size == spec.hashprim.md_len(self.g_alg)))'],
+                          abstract=True))
     reg.add(ClassContract(HO, fields={'g_alg': 'int', 'g_data': 'bytes'}, abstract=True))
     reg.add(Contract(HM + '.new', params={'self': 'obj:' + HM, 'data': 'bytes'}, result='obj:' + HO,
                      ensures={'state': 'result.g_alg == self.g_alg and result.g_data == bytes(data)'}, modifies=[], assumed=why))
@@ -377,8 +377,8 @@ def add_hmac(reg):
     add_hash_interface(reg)
     dm = 'self._digestmod'
     reg.add(ClassContract(HMAC, fields={'digest_size': 'int', '_digestmod': 'obj:' + HM, 'oid?': 'str', '_inner': 'obj:' + HO, '_outer': 'obj:' + HO},
-                          valid=['self._inner.g_alg == %s.g_alg and self._outer.g_alg == %s.g_alg' % (dm, dm),
-                                 'self.digest_size == %s.digest_size' % dm, 'self._inner is not self._outer']))
+                          valid=['all((self._inner.g_alg == %s.g_alg, self._outer.g_alg == %s.g_alg, self.digest_size == %s.digest_size))' % (dm, dm, dm),
+                                 'self._inner is not self._outer']))
     alg = 'digestmod.g_alg, digestmod.block_size'
     reg.add(Contract(HMAC + '.__init__', params={'key': 'buffer', 'msg': 'buffer|none', 'digestmod': 'obj:' + HM}, self_type='new:' + HMAC,
                      requires=['valid(digestmod)'], raises={},
